@@ -24,8 +24,10 @@ def packEntry (fmt : PackFmt) (filt : PackFilter) (e : FsEntry) (b : Bucket) : O
     let m := { m with mtime := ⟨m.mtime.sec, 0⟩ }
     match fmt with
     | .tar =>
+      -- tar has no representation for sockets: refused (was a panic in `fsTypeToTarType` before `fix:` 2ffcafe)
+      if m.kind = .socket then .err .packInvalid else
       match metaToTarHdr m e.chash with
-      | none => .panic "can't pack sockets into tar"
+      | none => .panic "invalid fs.Type"
       | some _ => .ok (b.add m (if m.kind = .file then e.chash else []))
     | .zip => .ok (b.add m (if m.kind = .file ∨ m.kind = .symlink then e.chash else []))
 
